@@ -133,6 +133,96 @@ theorem exactly_once {cfg : Cfg} {n : Nat} {s : State} (hr : Reachable cfg n s)
       rw [hf] at this; simp at this
     | _ => rfl
 
+/-- **Context exclusivity / one worker per item.** The per-worker context of worker `i` is used only by `i`'s
+own callback invocations (in the model the context *is* the index `i`: `worker_proc` passes `worker->user` of
+its own `worker_t`; that the real code hands each thread its own `worker_t` is asserted by the harness on every
+callback).  What the pool has to guarantee on top of that is that two distinct workers never hold the same
+work item — neither while running the callback nor while carrying the result to `store_completed`. -/
+theorem ctx_exclusive {cfg : Cfg} {n : Nat} {s : State} (hr : Reachable cfg n s) (i j : Nat) (pi pj : WPc)
+    (hi : s.workers[i]? = some pi) (hj : s.workers[j]? = some pj) (hij : i ≠ j) :
+    ∀ a ∈ pi.held, ∀ b ∈ pj.held, a.ticket ≠ b.ticket := by
+  intro a ha b hb heq
+  have hnd := (at_most_once hr).2.2
+  -- the ticket would occur twice among the tickets held by workers
+  have hcount : count a.ticket (tkF s ++ tkW s) ≤ 1 := by
+    have h1 : (tkF s ++ tkW s).Nodup := by
+      have : (range s.returned.length ++ tks s.safeDone ++ tks s.done ++ (tkF s ++ tkW s) ++ tks s.queue).Nodup := by
+        simpa [append_assoc] using hnd
+      exact (nodup_append.1 (nodup_append.1 this).1).2.1
+    exact count_le_one_of_nodup _ _ h1
+  have hsum : count a.ticket (tkF s ++ tkW s) = count a.ticket (s.workers.flatMap fun pc => pc.tkF ++ pc.tkW) := by
+    rw [count_flatMap_append, count_append]; rfl
+  have h2 := count_two_le_flatMap (fun pc : WPc => pc.tkF ++ pc.tkW) s.workers i j pi pj a.ticket hi hj hij
+    .start rfl
+  have hpi : 1 ≤ count a.ticket (pi.tkF ++ pi.tkW) := by
+    cases pi <;> simp_all [WPc.held, WPc.tkF, WPc.tkW]
+  have hpj : 1 ≤ count a.ticket (pj.tkF ++ pj.tkW) := by
+    rw [heq]
+    cases pj <;> simp_all [WPc.held, WPc.tkF, WPc.tkW]
+  omega
+
+/-- every callback invocation was made by the worker that had taken that item from the queue, on that worker's
+own context: a `started` entry `(w, it)` is only ever appended by worker `w`'s own step from `working it` -/
+theorem ctx_owner {cfg : Cfg} {s s' : State} (c : Choice) (hs : step cfg s c = some s') :
+    s'.started = s.started ∨
+    ∃ w it, c = .worker w false ∧ s.workers[w]? = some (.working it) ∧ s'.started = s.started ++ [(w, it)] := by
+  cases c with
+  | worker i spur =>
+    simp only [step] at hs
+    unfold stepWorker at hs
+    split at hs
+    · simp at hs
+    · split at hs
+      · simp at hs
+      · simp only [Option.some.injEq] at hs; subst hs; left
+        exact getNextWork_started _ _
+    · split at hs
+      · simp only [Option.some.injEq] at hs; subst hs; left
+        exact getNextWork_started _ _
+      · simp at hs
+    · rename_i it hi
+      split at hs
+      · simp at hs
+      · rename_i hsp
+        simp only [Option.some.injEq] at hs; subst hs; right
+        have : spur = false := by cases spur <;> simp_all
+        subst this
+        exact ⟨i, it, rfl, hi, rfl⟩
+    · split at hs
+      · simp at hs
+      · simp only [Option.some.injEq] at hs; subst hs; left
+        exact getNextWork_started _ _
+    · simp at hs
+  | main mc =>
+    left
+    simp only [step] at hs
+    unfold stepMain at hs
+    split at hs
+    · simp only [Option.some.injEq] at hs; subst hs; rfl
+    · split at hs
+      · simp only [Option.some.injEq] at hs; subst hs; rfl
+      · split at hs
+        · simp only [Option.some.injEq] at hs; subst hs; rfl
+        · simp only [Option.some.injEq] at hs; subst hs; rfl
+    · simp only [Option.some.injEq] at hs; subst hs; rfl
+    · simp only [Option.some.injEq] at hs; subst hs; rfl
+    · simp only [Option.some.injEq] at hs; subst hs
+      unfold submitBody; by_cases h0 : s.status = 0 <;> simp [h0]
+    · simp only [Option.some.injEq] at hs; subst hs
+      unfold deqTry deqWaitOrNull deqReturn; split <;> (try split) <;> (try split) <;> rfl
+    · split at hs
+      · simp only [Option.some.injEq] at hs; subst hs
+        unfold deqTry deqWaitOrNull deqReturn; split <;> (try split) <;> (try split) <;> rfl
+      · simp at hs
+    · simp only [Option.some.injEq] at hs; subst hs; rfl
+    · simp only [Option.some.injEq] at hs; subst hs; rfl
+    · split at hs
+      · split at hs
+        · simp only [Option.some.injEq] at hs; subst hs; rfl
+        · simp only [Option.some.injEq] at hs; subst hs; rfl
+      · simp at hs
+    · simp at hs
+
 /-! ### liveness: no lost wake-up, no dead-lock -/
 
 /-- **No lost wake-up** (holds with and without spurious wake-ups, for both variants of `dequeue`).
@@ -268,6 +358,134 @@ theorem no_deadlock_flag {cfg : Cfg} {n : Nat} {s : State} (hrep : cfg.repaired 
         right
         exact ⟨i, hi, by simp [hen]⟩
 
+/-! ### failure -/
+
+/-- **Failure recorded.** In every reachable state: a non-zero status is the value some callback that ran
+returned (or the −1 `destroy` sets once it holds the lock); and a failure is never lost — once a callback has
+returned non-zero, either its worker is still on its way to `store_completed` or the status is non-zero. -/
+theorem failure_recorded {cfg : Cfg} {n : Nat} {s : State} (hr : Reachable cfg n s) :
+    (s.status ≠ 0 → s.main.inJoin ∨ ∃ p ∈ s.started, cfg.rcOf p.2.data = s.status) ∧
+    (∀ p ∈ s.started, cfg.rcOf p.2.data ≠ 0 → s.status ≠ 0 ∨ p.2.ticket ∈ tkF s) :=
+  ⟨(invC_reachable hr).statusFrom, (invC_reachable hr).failSeen⟩
+
+/-- **Failure is sticky and stops the pool.** Once the status is non-zero, every further step (of any thread)
+leaves it non-zero — and unchanged, except for `destroy` overwriting it with −1 —, takes nothing out of the
+work queue and accepts no new submission. -/
+theorem failure_sticky {cfg : Cfg} {s s' : State} (c : Choice) (hs : step cfg s c = some s') (h0 : s.status ≠ 0) :
+    s'.status ≠ 0 ∧ (s'.status = s.status ∨ s.main = .destroyLock) ∧ s'.queue = s.queue ∧
+    s'.submitted = s.submitted := by
+  cases c with
+  | worker i spur =>
+    simp only [step] at hs
+    unfold stepWorker at hs
+    split at hs
+    · simp at hs
+    · split at hs
+      · simp at hs
+      · simp only [Option.some.injEq] at hs; subst hs; simp [getNextWork, h0]
+    · split at hs
+      · simp only [Option.some.injEq] at hs; subst hs; simp [getNextWork, h0]
+      · simp at hs
+    · split at hs
+      · simp at hs
+      · simp only [Option.some.injEq] at hs; subst hs; simp [h0]
+    · split at hs
+      · simp at hs
+      · simp only [Option.some.injEq] at hs; subst hs; simp [getNextWork, h0]
+    · simp at hs
+  | main mc =>
+    simp only [step] at hs
+    unfold stepMain at hs
+    split at hs
+    · simp only [Option.some.injEq] at hs; subst hs; simp [h0]
+    · split at hs
+      · simp only [Option.some.injEq] at hs; subst hs; simp [h0]
+      · split at hs
+        · simp only [Option.some.injEq] at hs; subst hs; simp [deqReturn, h0]
+        · simp only [Option.some.injEq] at hs; subst hs; simp [h0]
+    · simp only [Option.some.injEq] at hs; subst hs; simp [h0]
+    · simp only [Option.some.injEq] at hs; subst hs; simp [h0]
+    · simp only [Option.some.injEq] at hs; subst hs; simp [submitBody, h0]
+    · simp only [Option.some.injEq] at hs; subst hs
+      unfold deqTry deqWaitOrNull deqReturn
+      split <;> (try split) <;> (try split) <;> simp [h0]
+    · split at hs
+      · simp only [Option.some.injEq] at hs; subst hs
+        unfold deqTry deqWaitOrNull deqReturn
+        split <;> (try split) <;> (try split) <;> simp [h0]
+      · simp at hs
+    · simp only [Option.some.injEq] at hs; subst hs; simp [h0]
+    · rename_i hmain
+      simp only [Option.some.injEq] at hs; subst hs; simp [hmain]
+    · split at hs
+      · split at hs
+        · simp only [Option.some.injEq] at hs; subst hs; simp [h0]
+        · simp only [Option.some.injEq] at hs; subst hs; simp [h0]
+      · simp at hs
+    · simp at hs
+
+/-- **`submit` reports the failure**: it returns the current status; if that is non-zero nothing is enqueued. -/
+theorem failure_reported_submit {cfg : Cfg} {s s' : State} {d : Nat} (hm : s.main = .submitLock d)
+    (hs : step cfg s (.main (.cont false)) = some s') :
+    s'.rets = s.rets ++ [.submit s.status] ∧ s'.main = .idle ∧
+    (s.status ≠ 0 → s'.queue = s.queue ∧ s'.submitted = s.submitted ∧ s'.itemCount = s.itemCount) := by
+  simp only [step, stepMain, hm, Option.some.injEq] at hs
+  subst hs
+  refine ⟨?_, ?_, ?_⟩
+  · unfold submitBody; by_cases h0 : s.status = 0 <;> simp [h0]
+  · unfold submitBody; by_cases h0 : s.status = 0 <;> simp [h0]
+  · intro h0; simp [submitBody, h0]
+
+/-- **`get_status` reports it.** -/
+theorem failure_reported_get_status {cfg : Cfg} {s s' : State} (hm : s.main = .statusLock)
+    (hs : step cfg s (.main (.cont false)) = some s') :
+    s'.rets = s.rets ++ [.status s.status] ∧ s'.main = .idle := by
+  simp only [step, stepMain, hm, Option.some.injEq] at hs
+  subst hs
+  exact ⟨rfl, rfl⟩
+
+/-- **`dequeue` after a failure does not wait** (repaired code): holding the lock with a non-zero status it
+returns at once — the next item in submission order if that one is already done, otherwise NULL (after which
+the caller finds the failure with `get_status`, as `dequeue_block` in the block processor does). -/
+theorem failure_reported_dequeue {cfg : Cfg} {n : Nat} {s s' : State} (hrep : cfg.repaired = true)
+    (hr : Reachable cfg n s) (h0 : s.status ≠ 0) (spur : Bool)
+    (hm : s.main = .deqLock ∨ ∃ sig, s.main = .deqWait sig)
+    (hs : step cfg s (.main (.cont spur)) = some s') :
+    s'.main = .idle ∧
+    (s'.rets = s.rets ++ [.deq none] ∨
+     ∃ d, s'.rets = s.rets ++ [.deq (some d)] ∧ s.submitted[s.returned.length]? = some d ∧
+          s'.returned = s.returned ++ [d]) := by
+  have hA := inv_reachable hr
+  have key : s' = deqTry cfg s := by
+    rcases hm with hm | ⟨sig, hm⟩
+    · simp only [step, stepMain, hm] at hs
+      cases spur <;> simp at hs
+      exact hs.symm
+    · simp only [step, stepMain, hm] at hs
+      split at hs
+      · simp only [Option.some.injEq] at hs; exact hs.symm
+      · simp at hs
+  subst key
+  have hin : s.main.inDeq := by
+    rcases hm with hm | ⟨sig, hm⟩ <;> (rw [hm]; trivial)
+  obtain ⟨hsd, _⟩ := hA.mainDeq hin
+  have hnd := hA.nd
+  rw [hsd] at hnd
+  simp only [length_nil, Nat.add_zero] at hnd
+  have hnull : (deqWaitOrNull cfg s).main = .idle ∧ (deqWaitOrNull cfg s).rets = s.rets ++ [.deq none] := by
+    unfold deqWaitOrNull; simp [hrep, h0]
+  unfold deqTry
+  split
+  · exact ⟨hnull.1, Or.inl hnull.2⟩
+  · rename_i it r hd
+    split
+    · rename_i ht
+      refine ⟨rfl, Or.inr ⟨it.data, rfl, ?_, rfl⟩⟩
+      have := hA.data it (Or.inr (Or.inl (by rw [hd]; exact mem_cons_self)))
+      rw [ht, hnd] at this
+      exact this
+    · exact ⟨hnull.1, Or.inl hnull.2⟩
+
 /-! ### non-vacuity -/
 
 /-- a concrete execution (2 workers, items 7 and 9, worker 1 overtakes worker 0) that reaches a state where
@@ -278,5 +496,23 @@ example :
        .worker 0 false, .worker 1 false, .worker 1 false, .worker 1 false, .worker 0 false, .worker 0 false,
        .main (.call .dequeue), .main (.cont false), .main (.call .dequeue), .main (.cont false)]
     s.returned = [7, 9] ∧ s.submitted = [7, 9] ∧ s.started.map (·.1) = [1, 0] := by decide
+
+/-- the hypotheses of `failure_reported_dequeue` and `no_deadlock` are satisfiable: the D1 schedule on the
+repaired pool reaches `deqLock` with status −5 and a ticket still queued; the next step returns NULL -/
+example :
+    let cfg : Cfg := ⟨true, fun d => if d = 0 then -5 else 0⟩
+    let s := run cfg (init 1)
+      [.main (.call (.submit 0)), .main (.cont false), .main (.call (.submit 1)), .main (.cont false),
+       .worker 0 false, .worker 0 false, .worker 0 false,
+       .main (.call .dequeue), .main (.cont false), .main (.call .dequeue)]
+    s.main = .deqLock ∧ s.status = -5 ∧ s.queue = [⟨1, 1⟩] ∧ mainInCall s = true ∧
+    ((step cfg s (.main (.cont false))).map (·.rets.getLast?)) = some (some (.deq none)) := by decide
+
+/-- a state in which the main thread really waits unsignalled while a worker holds the awaited ticket
+(the hypothesis `s.main = .deqWait false` of `no_lost_wakeup` is satisfiable) -/
+example :
+    let s := run ⟨true, fun _ => 0⟩ (init 2)
+      [.main (.call (.submit 3)), .main (.cont false), .worker 1 false, .main (.call .dequeue), .main (.cont false)]
+    s.main = .deqWait false ∧ s.nextDeq ∈ tkW s ∧ s.workers = [.start, .working ⟨0, 3⟩] := by decide
 
 end Sqfs.C09
